@@ -31,6 +31,30 @@ type c06Case struct {
 	Sig     string // hex
 	EM      string `json:",omitempty"` // hex; when Sig is empty the harness computes Sig = EM^d mod N
 	Note    string
+	Exp     int `json:",omitempty"` // RSA public exponent of the device key when it is not the fixture's 65537
+}
+
+var c06Exps = []int{3, 5, 17, 257, 65539}
+
+var c06ExpKeys = map[string]*rsa.PrivateKey{}
+
+// c06KeyWithExp: the fixture modulus with another public exponent (nil when the exponent is not invertible for its primes).
+func c06KeyWithExp(bits, exp int) *rsa.PrivateKey {
+	id := fmt.Sprint(bits, "/", exp)
+	if k, ok := c06ExpKeys[id]; ok {
+		return k
+	}
+	base := fix.RSA(bits)
+	one := big.NewInt(1)
+	phi := new(big.Int).Mul(new(big.Int).Sub(base.Primes[0], one), new(big.Int).Sub(base.Primes[1], one))
+	d := new(big.Int).ModInverse(big.NewInt(int64(exp)), phi)
+	var k *rsa.PrivateKey
+	if d != nil {
+		k = &rsa.PrivateKey{PublicKey: rsa.PublicKey{N: base.N, E: exp}, D: d, Primes: []*big.Int{base.Primes[0], base.Primes[1]}}
+		k.Precompute()
+	}
+	c06ExpKeys[id] = k
+	return k
 }
 
 var c06Hashes = []crypto.Hash{crypto.SHA1, crypto.SHA256, crypto.SHA384, crypto.SHA512}
@@ -170,6 +194,14 @@ func c06Build() *c06World {
 		t := fix.X509Template("YubiKey PIV Attestation", 10, now.Add(-y), now.Add(5*y), true)
 		w.device[fmt.Sprint(bits)+"/selfsigned"] = fix.X509Issue(t, t, fix.RSA(bits).Public(), fix.RSA(bits))
 	}
+	// device keys with an unusual (legal) public exponent on the fixture moduli
+	for _, bits := range []int{1024, 2048} {
+		for _, e := range c06Exps {
+			if k := c06KeyWithExp(bits, e); k != nil {
+				w.device[fmt.Sprintf("%de%d/root", bits, e)] = fix.X509Issue(fix.X509Template("YubiKey PIV Attestation", 10, now.Add(-y), now.Add(5*y), true), root, &k.PublicKey, rootKey)
+			}
+		}
+	}
 	mk("p256", fix.EC(256).Public())
 	mk("ed25519", fix.Ed(0).Public())
 	return w
@@ -180,6 +212,9 @@ func c06Run(c *ev.Ctx, k c06Case) {
 	name := k.KeyType
 	if k.Bits != 0 {
 		name = fmt.Sprint(k.Bits)
+		if k.Exp != 0 {
+			name = fmt.Sprintf("%de%d", k.Bits, k.Exp)
+		}
 	}
 	dev := c06W.device[name+"/"+k.Chain]
 	if dev == nil {
@@ -189,7 +224,11 @@ func c06Run(c *ev.Ctx, k c06Case) {
 	tbs, _ := hex.DecodeString(k.TBS)
 	if k.Sig == "" && k.EM != "" && k.Bits != 0 {
 		em, _ := hex.DecodeString(k.EM)
-		k.Sig = hex.EncodeToString(c06SignRaw(fix.RSA(k.Bits), em))
+		key := fix.RSA(k.Bits)
+		if k.Exp != 0 {
+			key = c06KeyWithExp(k.Bits, k.Exp)
+		}
+		k.Sig = hex.EncodeToString(c06SignRaw(key, em))
 	}
 	sig, _ := hex.DecodeString(k.Sig)
 	slot := &x509.Certificate{SignatureAlgorithm: x509.SignatureAlgorithm(k.Label), RawTBSCertificate: tbs, Signature: sig}
@@ -287,7 +326,7 @@ func c06Lifetime(c *ev.Ctx, tbs []byte) {
 }
 
 func checkC06(c *ev.Ctx) {
-	c.Rule("the harness owns the device RSA key, so for any target encoded message EM it computes sig = EM^d mod N: device key sizes (quick 1024,2048; thorough +1032,1536,3072,4096) x hash{SHA-1,256,384,512} x identifier form{NULL,no NULL} x every byte position of EM x 7 replacement values; structural variants (shortened/short padding, 00 inside padding, missing separator, shifted T, foreign identifier, wrong digest, block types 00/02, sig+N); single-bit flips of signature and body (quick: 1024-bit key; thorough: 2048 too); every signature-algorithm label 0..16,99,-1 x EM hash; chain relations {pool root (2 roots), foreign CA, self-signed, expired, not yet valid, missing intermediate}; device key types {RSA, P-256, Ed25519}; one long-lived Attestor used before and after a device certificate's expiry / start of validity (real time, 5.5 s). Oracle: independent predicate on sig^e mod N. non-trivial = accepted attestation; distinct by (size,label,chain,variant)")
+	c.Rule("the harness owns the device RSA key, so for any target encoded message EM it computes sig = EM^d mod N: device key sizes (quick 1024,2048; thorough +1032,1536,3072,4096) x hash{SHA-1,256,384,512} x identifier form{NULL,no NULL} x every byte position of EM x 7 replacement values; structural variants (shortened/short padding, 00 inside padding, missing separator, shifted T, foreign identifier, wrong digest, block types 00/02, sig+N); single-bit flips of signature and body (quick: 1024-bit key; thorough: 2048 too); every signature-algorithm label 0..16,99,-1 x EM hash; chain relations {pool root (2 roots), foreign CA, self-signed, expired, not yet valid, missing intermediate}; device key types {RSA, P-256, Ed25519}; RSA public exponents {3,5,17,257,65539} (those invertible for the fixture primes) on the 1024-bit modulus (thorough: 2048 too), interleaved with the 65537 cases; one long-lived Attestor used before and after a device certificate's expiry / start of validity (real time, 5.5 s). Oracle: independent predicate on sig^e mod N. non-trivial = accepted attestation; distinct by (size,label,chain,variant)")
 	c.Assume("crypto/x509 chain building is trusted", "modular exponentiation by math/big")
 	t0 := time.Now()
 	c06W = c06Build()
@@ -323,6 +362,20 @@ func checkC06(c *ev.Ctx) {
 				fn := fmt.Sprintf("%v/form%d", h, form)
 				add(bits, labelOf[h], "root", base, "valid "+fn)
 				add(bits, labelOf[h], "root2", base, "valid "+fn)
+				// the same encoded message under device keys with other public exponents: signed by that key (must be
+				// accepted), signed by the 65537 key of the same modulus (must be rejected), and one altered padding byte
+				if bits == 1024 || (bits == 2048 && c.Thorough()) {
+					for _, e := range c06Exps {
+						if c06KeyWithExp(bits, e) == nil {
+							continue
+						}
+						cases = append(cases, c06Case{Bits: bits, Exp: e, Chain: "root", Label: int(labelOf[h]), TBS: tbsHex, EM: hex.EncodeToString(base), Note: fmt.Sprintf("valid %s exponent %d", fn, e)})
+						cases = append(cases, c06Case{Bits: bits, Exp: e, Chain: "root", Label: int(labelOf[h]), TBS: tbsHex, Sig: hex.EncodeToString(c06SignRaw(fix.RSA(bits), base)), Note: fmt.Sprintf("signed with exponent 65537 of the same modulus, device exponent %d", e)})
+						bad := append([]byte{}, base...)
+						bad[5] = 0xfe
+						cases = append(cases, c06Case{Bits: bits, Exp: e, Chain: "root", Label: int(labelOf[h]), TBS: tbsHex, EM: hex.EncodeToString(bad), Note: fmt.Sprintf("padding byte altered, exponent %d", e)})
+					}
+				}
 				// every byte position x replacement values
 				for pos := 0; pos < k; pos++ {
 					for _, f := range []func(byte) byte{func(byte) byte { return 0 }, func(byte) byte { return 1 }, func(byte) byte { return 2 }, func(byte) byte { return 0xff }, func(byte) byte { return 0xfe },
